@@ -229,19 +229,24 @@ def app_traj_scenario(ctx):
     ra = e['ra']
     U = e['util']
     N = t.irange(1, 4)
-    two = t.flag(1, 4)
+    ngroups = t.choice((1, 1, 1, 2, 2, 3, 3))
+    two = ngroups >= 2
     n_res = t.irange(3, 4)        # at least 6 selected atoms (see clcommon: 4-atom frames are degenerate)
-    tops = [make_top(n_res, False)] + ([make_top(n_res, True)] if two else [])
+    tops = [make_top(n_res, False)] + ([make_top(n_res, True)] if two else []) + ([make_top(n_res, False)] if ngroups == 3 else [])
+    share_top = ngroups == 3 and t.flag()        # the third group names the first group's topology file again
     selection = t.choice(('name CA or name C', 'name N or name CA or name C'))
     sub = 1 if t.flag(2, 3) else t.irange(2, 3)
     ext = t.choice(('h5', 'xtc', 'h5'))
     d = ctx.scratch()
     rs = np.random.RandomState(t.draw(2 ** 31 - 1))
     topfiles, trjsets, loaded_sel, loaded_all, sels, group_of = [], [], [], [], [], []
-    n_first = max(N - (1 if two else 0), 1) + t.draw(3)
+    n_first = max(N - (ngroups - 1), 1) + t.draw(3)
     for ti, top in enumerate(tops):
-        tf = os.path.join(d, 'top%d.pdb' % ti)
-        md.Trajectory(rs.rand(1, top.n_atoms, 3).astype('float32'), top).save(tf)
+        if ti == 2 and share_top:
+            tf = topfiles[0]
+        else:
+            tf = os.path.join(d, 'top%d.pdb' % ti)
+            md.Trajectory(rs.rand(1, top.n_atoms, 3).astype('float32'), top).save(tf)
         topfiles.append(tf)
         ftop = md.load(tf).top
         sel = ftop.select(selection)
@@ -321,6 +326,10 @@ def app_traj_scenario(ctx):
     ctx.hit('traj_app_end_to_end')
     if two:
         ctx.hit('traj_app_two_topologies')
+    if ngroups == 3:
+        ctx.hit('traj_app_three_groups')
+        if len({group_of[int(tr)] for tr, _ in np.load(out['inds'], allow_pickle=True)}) < 3 if os.path.exists(out['inds']) else False:
+            ctx.hit('traj_app_group_without_centre')
     require(all(rc == 0 for rc in rcs), 'app_failed', lambda: 'main() returned %s' % rcs)
     bad_writers = sorted({(r, f) for r, f in writers if r != 0})
     require(not bad_writers, 'non_root_rank_wrote_output', lambda: 'ranks other than 0 opened for writing: %s' % bad_writers[:6])
